@@ -604,7 +604,17 @@ func runInitFail(r *rngT) (string, closeObs) {
 			kinds = append(kinds, "bcast")
 		}
 	}
-	switch r.Intn(4) {
+	mayFail := false
+	switch r.Intn(6) {
+	case 4, 5:
+		// a broadcast endpoint whose broadcast port is not a port number (out of range, a name, empty), with an explicit local
+		// address that CAN be bound: whether Initialize refuses it or not, nothing may stay bound afterwards
+		p := freePort(true)
+		ports = append(ports, portRef{true, p})
+		bad := []string{"70000", "mavlink", "", "-1", "65536"}[r.Intn(5)]
+		eps = append(eps, gomavlib.EndpointUDPBroadcast{BroadcastAddress: "127.255.255.255:" + bad, LocalAddress: fmt.Sprintf("127.0.0.1:%d", p)})
+		kinds = append(kinds, "MAYFAIL-bcast-port-"+bad)
+		mayFail = true
 	case 0:
 		if firstTCP != 0 {
 			eps = append(eps, gomavlib.EndpointTCPServer{Address: fmt.Sprintf("127.0.0.1:%d", firstTCP)})
@@ -624,9 +634,11 @@ func runInitFail(r *rngT) (string, closeObs) {
 	}
 	n := &gomavlib.Node{Endpoints: eps, Dialect: common.Dialect, OutVersion: gomavlib.V2, OutSystemID: 9}
 	err := n.Initialize()
-	obs.ret = err != nil
+	obs.ret = err != nil || mayFail
 	if err == nil {
-		obs.note = "initialize-succeeded"
+		if !mayFail {
+			obs.note = "initialize-succeeded"
+		}
 		n.Close()
 	}
 	obs.evClosed, obs.lateWrites = true, true
